@@ -367,9 +367,9 @@ func (r *renderer) render1(v ssa.Value, d int) *Term {
 	case *ssa.Const:
 		return &Term{Op: "const", Name: constString(x)}
 	case *ssa.Parameter:
-		return &Term{Op: "param", Name: x.Name()}
+		return &Term{Op: "param", Name: frozenParamName(x)}
 	case *ssa.FreeVar:
-		return &Term{Op: "freevar", Name: x.Name()}
+		return &Term{Op: "freevar", Name: frozenFreeVarName(x)}
 	case *ssa.Global:
 		return &Term{Op: "global", Name: relPkg(x.Pkg.Pkg.Path()) + "." + x.Name()}
 	case *ssa.Function:
@@ -669,4 +669,42 @@ func hexOf(s string) string {
 		b = append(b, d[s[i]>>4], d[s[i]&15])
 	}
 	return string(b)
+}
+
+// frozenParamName: rule tables name parameters by the names they had when the table was frozen (params_frozen.go,
+// keyed by function and position), so renaming a parameter in /repo does not change what a rule matches.
+func frozenParamName(p *ssa.Parameter) string {
+	fn := p.Parent()
+	if fn == nil {
+		return p.Name()
+	}
+	names, ok := frozenParams[FuncKey(fn)]
+	if !ok {
+		return p.Name()
+	}
+	for i, q := range fn.Params {
+		if q == p {
+			if i < len(names) && len(names) == len(fn.Params) {
+				return names[i]
+			}
+		}
+	}
+	return p.Name()
+}
+
+func frozenFreeVarName(v *ssa.FreeVar) string {
+	fn := v.Parent()
+	if fn == nil {
+		return v.Name()
+	}
+	names, ok := frozenFreeVars[FuncKey(fn)]
+	if !ok || len(names) != len(fn.FreeVars) {
+		return v.Name()
+	}
+	for i, q := range fn.FreeVars {
+		if q == v {
+			return names[i]
+		}
+	}
+	return v.Name()
 }
